@@ -3,6 +3,7 @@
 From SF Require Import Base.Prelude Gen.Generated Unsized.Types Unsized.Parse Unsized.Machine Unsized.Ops.
 From SF Require Import Unsized.Proofs.EncodeParse Unsized.Proofs.Mem Unsized.Proofs.Notify Unsized.Proofs.Flat Unsized.Proofs.Layout
   Unsized.Proofs.Table Unsized.Proofs.Path.
+From SF Require Import Unsized.Proofs.EnumFacts.
 
 Arguments Z.add : simpl never.
 Arguments Z.sub : simpl never.
@@ -18,7 +19,7 @@ Fixpoint tpos (t : ty) : bool :=
   | TRem => false
   | TUList _ _ => true
   | TStruct ts => (fix go ts := match ts with [] => false | t :: r => tpos t || go r end) ts
-  | TEnum _ _ => false
+  | TEnum rw _ => negb (rw =? 0)%nat   (* the discriminant *)
   end.
 
 Lemma tpos_struct_cons t ts : tpos (TStruct (t :: ts)) = tpos t || tpos (TStruct ts).
@@ -44,7 +45,10 @@ Proof.
     rewrite tpos_struct_cons in Hp. rewrite encode_struct_cons, zlen_app.
     pose proof (zlen_nonneg (encode t v)). pose proof (zlen_nonneg (encode (TStruct ts) (VStruct vs0))).
     apply orb_true_iff in Hp as [Hp|Hp]; [specialize (Ht v Hp Hv); lia|specialize (IHts vs0 Hp Hvs); lia].
-  - discriminate.
+  - destruct v as [| | | |d pv]; try (cbn in Hwf; discriminate).
+    destruct (wf_enum_inv _ _ _ _ Hwf) as (_ & vt & Hf & _).
+    cbn [tpos] in Hp. apply negb_true_iff, Nat.eqb_neq in Hp.
+    rewrite (zlen_encode_enum _ _ _ _ _ Hf). pose proof (zlen_nonneg (encode vt pv)). lia.
 Qed.
 
 Lemma tpos_nth ts i ti : nth_error ts i = Some ti -> tpos ti = true -> tpos (TStruct ts) = true.
@@ -71,11 +75,13 @@ Proof.
   - cbn [resolve] in Hr. injection Hr as <- <-.
     destruct t; try discriminate; cbn [ty_ok tpos] in *; try reflexivity.
     apply andb_true_iff in Hok as [Hok _]. apply andb_true_iff in Hok as [Hok _]. exact Hok.
-  - destruct s as [i|i]; cbn [resolve] in Hr.
+  - destruct s as [i|i|]; cbn [resolve] in Hr.
     + destruct t as [| | | |ts|]; try discriminate. destruct v as [| | |vs|]; try discriminate.
       destruct (nth_error ts i) as [ti|] eqn:Et; [|discriminate]. destruct (nth_error vs i) as [vi|] eqn:Ev; [|discriminate].
       apply (tpos_nth ts i ti Et). apply (IH ti vi X xv); auto. eapply ty_ok_false_nth; eauto.
     + destruct t as [| | |it k| |]; try discriminate. reflexivity.
+    + destruct t as [| | | | |rw vars]; try discriminate.
+      cbn [ty_ok] in Hok. apply andb_true_iff in Hok as [Hok _]. apply andb_true_iff in Hok as [Hok _]. exact Hok.
 Qed.
 
 (* all element sizes of a well-formed list whose element type always occupies bytes are positive *)
